@@ -1,3 +1,4 @@
+//! NOTE: the fixed C10 corpus (gen/frozen.rs) depends on this generator bit for bit: do not change the algorithms.
 //! Deterministic PRNG (xoshiro256**, seeded through splitmix64). Every random choice of the
 //! harness derives from (VERIF_SEED, property id, shard).
 #[derive(Clone)]
